@@ -14,6 +14,11 @@ import Ptn.C17.Cut
 import Ptn.C17.Last
 import Ptn.C17.Segments
 import Ptn.C17.DistTree
+import Ptn.C17.HopFacts
+import Ptn.C17.Last3
+import Ptn.C17.FlatDist
+import Ptn.C17.FlatUpdate
+import Ptn.C17.FlatValid
 /-! Property theorems for C17 (tree navigation, TDVP sweep order, initial cache keys).  Only
 property theorems and non-vacuity examples live here; helper lemmas are in `Lemmas.lean`,
 `Tree.lean`, `Path.lean`, ….  All theorems quantify over every ordered rooted tree `t` with
@@ -246,5 +251,17 @@ example : (edges exTree).map unord = [(0, 1), (1, 3), (1, 4), (0, 2), (0, 5), (5
   decide
 example : firstHop exTree 2 3 = some 0 ∧ firstHop exTree 0 3 = some 1 := by decide
 example : nbrsOf exTree 1 = [0, 3, 4] ∧ nbrsOf exTree 0 = [1, 2, 5] := by decide
+
+/-! ### Flat port = structural model (files `Flat.lean`, `FlatKids.lean`, `FlatDist.lean`)
+
+`Mirror ft t`: the dict of `ft` is a rearrangement of `flatten t` (any insertion order), `root_id` is
+the root of `t`, identifiers distinct; `toRTree_mirror`: the driver's check `ft.toRTree = some t`
+implies `Mirror ft t`.  Theorems `flat_*_eq_struct` (listed in
+`obligations/C17.txt`): the line-by-line port on such a mirror returns exactly what the structural
+model returns.  Non-vacuity: a mirror of `exTree` in a scrambled dict order. -/
+
+example : Mirror ⟨[(5, ⟨some 0, [6]⟩), (3, ⟨some 1, []⟩), (0, ⟨none, [1, 2, 5]⟩), (7, ⟨some 6, []⟩),
+      (1, ⟨some 0, [3, 4]⟩), (6, ⟨some 5, [7]⟩), (2, ⟨some 0, []⟩), (4, ⟨some 1, []⟩)], some 0⟩ exTree :=
+  ⟨by decide, rfl, by decide⟩
 
 end Ptn.C17
